@@ -336,13 +336,21 @@ func vfC03GenCfg(rt *rapid.T, thorough bool) *vfxCfg {
 	if a := rapid.SampledFrom([]int{0, 0, 0, 2, 3}).Draw(rt, "retry-attempts"); a > 0 {
 		c.RetryAttempts, c.FailureCodes = a, []int{502, 503}
 	}
+	// failureCodes only change the result the Proxy reports (and what a retry policy re-tries):
+	// the answer of the backend must reach the client all the same. With a retry policy 502 and
+	// 503 are always listed (the scripted failing attempts use them).
+	if c.RetryAttempts > 0 {
+		c.FailureCodes = rapid.SampledFrom([][]int{{502, 503}, {502, 503}, {502, 503, 404}, {500, 502, 503, 429}}).Draw(rt, "failure-codes-with-retry")
+	} else if rapid.IntRange(0, 2).Draw(rt, "failure-codes-without-retry") == 0 {
+		c.FailureCodes = rapid.SampledFrom([][]int{{503}, {502, 503}, {500, 503, 404}, {429, 502, 503, 504}}).Draw(rt, "failure-codes")
+	}
 	// caches must be transparent: the route cache of the server, the memoryCache of the pool
 	c.CacheSize = rapid.SampledFrom([]uint32{0, 0, 3, 1000}).Draw(rt, "route-cacheSize")
 	if rapid.IntRange(0, 2).Draw(rt, "memoryCache") == 0 {
 		c.MemCache = &vfxMemCache{Expiration: "1h",
 			MaxEntryBytes: rapid.SampledFrom([]int{100, 5000, 1 << 20, 1 << 20}).Draw(rt, "maxEntryBytes"),
 			Codes:         rapid.SampledFrom([][]int{{200}, {200, 404}, {200, 301, 404, 500}}).Draw(rt, "cache-codes"),
-			Methods:       rapid.SampledFrom([][]string{{"GET"}, {"GET", "HEAD"}, {"GET", "POST"}}).Draw(rt, "cache-methods")}
+			Methods:       rapid.SampledFrom([][]string{{"GET"}, {"GET", "HEAD"}, {"GET", "HEAD"}, {"GET", "POST"}}).Draw(rt, "cache-methods")}
 		// a streamed response is never stored: keep most cache configurations buffered
 		if vfC03RespStream(c) && rapid.IntRange(0, 3).Draw(rt, "memoryCache-keeps-stream") != 0 {
 			c.Pools[0].ServerMax, c.ProxyServerMax = 0, 0
@@ -783,11 +791,32 @@ func TestVerifC03Forward(t *testing.T) {
 			if mirrored {
 				q.E2E = append(q.E2E, [2]string{vfxMirrorHeader, "1"})
 			}
-			if cfg.RetryAttempts > 0 {
-				// statuses listed as failure codes end the pipeline flow: keep them for the scripted failures
-				if p.Status == 502 || p.Status == 503 {
-					p.Status = 504
+			// a backend answer whose status is one of the pool's failureCodes: the Proxy reports the
+			// result failureCode (the flow ends there: a ResponseAdaptor behind the Proxy does not run,
+			// a retry policy re-sends the request) but "does not touch the response itself"
+			if len(cfg.FailureCodes) > 0 && p.Status != 204 && p.Status != 304 && rapid.IntRange(0, 3).Draw(rt, "final-answer-is-a-failure-code") == 0 {
+				p.Status = rapid.SampledFrom(cfg.FailureCodes).Draw(rt, "failure-code")
+				var loc [][2]string
+				for _, kv := range p.E2E {
+					if kv[0] != "Location" {
+						loc = append(loc, kv)
+					}
 				}
+				p.E2E = loc
+				for _, h := range [][2]string{{"Retry-After", "30"}, {"X-Request-Id", "vf-7f3a"}} {
+					if rapid.Bool().Draw(rt, "failure-header-"+h[0]) {
+						p.E2E = append(p.E2E, h)
+					}
+				}
+				if p.BodyN == 0 && rapid.IntRange(0, 3).Draw(rt, "failure-answer-gets-body") > 0 {
+					p.BodyN = rapid.SampledFrom([]int{1, 17, 1024}).Draw(rt, "failure-answer-body")
+				}
+			}
+			failFinal := false
+			for _, c := range cfg.FailureCodes {
+				failFinal = failFinal || c == p.Status
+			}
+			if cfg.RetryAttempts > 0 {
 				if !vfC03ReqStream(cfg) && rapid.Bool().Draw(rt, "failing-attempts") {
 					k := rapid.IntRange(1, cfg.RetryAttempts-1).Draw(rt, "nfailing")
 					for j := 0; j < k; j++ {
@@ -816,6 +845,21 @@ func TestVerifC03Forward(t *testing.T) {
 			if cacheable {
 				reps = rapid.IntRange(2, 4).Draw(rt, "cacheable-repetitions")
 			}
+			// HEAD and GET of one URL against a memoryCache that caches both: each method has its own
+			// entry (a HEAD entry has the headers of the GET answer, Content-Length included, and no body)
+			var repMethods []string
+			if cacheable && !p.Cut && (q.Method == "GET" || q.Method == "HEAD") && rapid.IntRange(0, 2).Draw(rt, "alternate-head-get") > 0 {
+				both := 0
+				for _, m := range cfg.MemCache.Methods {
+					if m == "GET" || m == "HEAD" {
+						both++
+					}
+				}
+				if both == 2 {
+					repMethods = rapid.SampledFrom([][]string{{"HEAD", "GET"}, {"HEAD", "GET", "GET"}, {"GET", "HEAD"}, {"GET", "HEAD", "GET"}, {"HEAD", "GET", "HEAD", "GET"}}).Draw(rt, "method-sequence")
+					reps = len(repMethods)
+				}
+			}
 			// bodies above the 4 MiB default limit only where that direction streams
 			if q.BodyN > vfC03Default && !vfC03ReqStream(cfg) {
 				q.BodyN = 70 * 1024
@@ -833,8 +877,16 @@ func TestVerifC03Forward(t *testing.T) {
 				p.Framing = "chunked"
 				vf.Exclude()
 			}
-			wire := q.toWire()
 			for rep := 0; rep < reps; rep++ {
+				q := q
+				prevMethod := ""
+				if repMethods != nil {
+					q.Method = repMethods[rep]
+					if rep > 0 {
+						prevMethod = repMethods[rep-1]
+					}
+				}
+				wire := q.toWire()
 				resp, seen, frontLog, transient, err := rig.exchange(wire, p.toScript())
 				if err != nil {
 					if err == errVfxTimeout {
@@ -872,6 +924,11 @@ func TestVerifC03Forward(t *testing.T) {
 					"backend-cuts-body": p.Cut, "backend-cuts-body-stream": p.Cut && vfC03RespStream(cfg), "backend-cuts-body-stream-recoded": p.Cut && vfC03RespStream(cfg) && (cfg.RespAdaptor != "" || vfC03CompressApplies(cfg, &q, &p)),
 					"mirrorPool": cfg.Mirror, "mirrored-request": mirrored, "mirrored-request-with-body": mirrored && q.BodyN > 0, "mirrored-stream-request-with-body": mirrored && q.BodyN > 0 && vfC03ReqStream(cfg),
 					"mirrored-request:copy-seen-by-mirror-server": mirrored && len(rig.mirrored()) > 0,
+					"failureCodes-configured":                     len(cfg.FailureCodes) > 0, "failureCodes-without-retry-policy": len(cfg.FailureCodes) > 0 && cfg.RetryAttempts == 0,
+					"failure-code-final-answer": failFinal, "failure-code-final-answer-with-body": failFinal && p.BodyN > 0 && q.Method != "HEAD", "failure-code-final-answer-with-headers": failFinal && len(p.E2E) > 0,
+					"failure-code-final-answer-retried": failFinal && len(seen) > 1, "failure-code-final-answer-respadaptor-skipped": failFinal && cfg.RespAdaptor != "",
+					"memoryCache-head-and-get-of-one-url": repMethods != nil, "memoryCache-get-after-head-of-same-url": prevMethod == "HEAD" && q.Method == "GET", "memoryCache-head-after-get-of-same-url": prevMethod == "GET" && q.Method == "HEAD",
+					"memoryCache-get-after-head-of-same-url(backend-not-contacted)": prevMethod == "HEAD" && q.Method == "GET" && len(seen) == 0,
 					"memoryCache": cfg.MemCache != nil, "memoryCache-repeated-cacheable-request": cacheable && rep > 0,
 					"memoryCache-hit(backend-not-contacted)":         cacheable && rep > 0 && len(seen) == 0,
 					"memoryCache-3rd+-repetition-behind-respadaptor": cacheable && rep >= 2 && cfg.RespAdaptor != ""} {
@@ -894,6 +951,14 @@ func TestVerifC03Forward(t *testing.T) {
 					return map[string]interface{}{"case": desc, "backend_received": s, "client_received": resp.String()}
 				})
 
+				// what the response is judged against: the flow ended at the Proxy when it reported
+				// failureCode, so a ResponseAdaptor behind it did not run
+				cfg := cfg
+				if failFinal && cfg.RespAdaptor != "" {
+					c2 := *cfg
+					c2.RespAdaptor, c2.RespAdaptorBody = "", ""
+					cfg = &c2
+				}
 				fail := func(v *vfC03Verdict) bool {
 					key := v.Symptom
 					respSide := strings.HasPrefix(v.Symptom, "resp-") || v.Symptom == "req-not-forwarded"
